@@ -22,6 +22,9 @@ type windowBuffer struct {
 	window        []byte
 	consumedBytes int
 	newlinesSeen  int
+	// skippedBytes is the number of leading bytes the decoder never saw (blanks consumed
+	// while looking for the start of a batch); decoder offsets are relative to them.
+	skippedBytes int
 }
 
 func (c *windowBuffer) Write(p []byte) (int, error) {
@@ -192,10 +195,11 @@ func drawMarker(window []byte, windowStart, markerPos, col int, msg string) stri
 }
 
 func prettyParseError(c *windowBuffer, err error) string {
-	absOffset, ok := errorOffset(c.consumedBytes, err)
+	absOffset, ok := errorOffset(c.consumedBytes-c.skippedBytes, err)
 	if !ok {
 		return err.Error()
 	}
+	absOffset += c.skippedBytes
 
 	windowStart := c.consumedBytes - len(c.window)
 	if absOffset < windowStart {
